@@ -18,8 +18,12 @@
 (***************************************************************************)
 EXTENDS Naturals, Integers, Sequences, FiniteSets, TLC, Annot
 
-FSymOrder == "." :> 0 @@ "-" :> 1 @@ "=" :> 2 @@ "#" :> 3 @@ "$" :> 4
+(* ':' is the aromatic order 1.5; orders are integers here, so it is coded as 15 *)
+Aromatic15 == 15
+FSymOrder == "." :> 0 @@ "-" :> 1 @@ "=" :> 2 @@ "#" :> 3 @@ "$" :> 4 @@ ":" :> Aromatic15
 FSymbols  == DOMAIN FSymOrder
+Dbl(o)    == IF o = Aromatic15 THEN 3 ELSE 2 * o          \* doubled orders: 3 = aromatic
+OrdText(o) == IF o = Aromatic15 THEN "1.5" ELSE ToString(o)
 Kinds     == {"$", ">", "<", "!"}
 
 FPair(a, b) == IF a < b THEN <<a, b>> ELSE <<b, a>>
@@ -79,7 +83,7 @@ StepF(fs, ts, i, coarse) ==
   LET t == ts[i] IN
   CASE t.k = "A" ->
          LET id == Len(fs.atoms)
-             o2 == IF fs.pend # -1 THEN 2 * fs.pend
+             o2 == IF fs.pend # -1 THEN Dbl(fs.pend)
                    ELSE IF coarse THEN 2 ELSE Default2(fs.atoms[fs.prev + 1], t)
              bonded == fs.prev # -1      \* '.' is kept as a bond of order 0 (as pysmiles and the CG reader do)
          IN [fs EXCEPT !.atoms = Append(@, t),
@@ -98,7 +102,7 @@ StepF(fs, ts, i, coarse) ==
     [] t.k = "R" ->
          IF \E o \in fs.open : o[1] = t.n
          THEN LET o == CHOOSE o \in fs.open : o[1] = t.n
-                  given == IF fs.pend # -1 THEN 2 * fs.pend ELSE o[3]
+                  given == IF fs.pend # -1 THEN Dbl(fs.pend) ELSE o[3]
                   o2 == IF given # -1 THEN given
                         ELSE IF coarse THEN 2 ELSE Default2(fs.atoms[o[2] + 1], fs.atoms[fs.cur + 1])
                   dup == \E e \in fs.bonds : e[1] = FPair(o[2], fs.cur)[1] /\ e[2] = FPair(o[2], fs.cur)[2]
@@ -106,7 +110,7 @@ StepF(fs, ts, i, coarse) ==
                             !.bonds = IF dup THEN @ ELSE @ \cup {<<FPair(o[2], fs.cur)[1], FPair(o[2], fs.cur)[2], o2>>},
                             !.err = IF dup THEN "dup" ELSE @,
                             !.pend = -1, !.last = "R", !.lastpct = (t.v = "%")]
-         ELSE [fs EXCEPT !.open = @ \cup {<<t.n, fs.cur, IF fs.pend # -1 THEN 2 * fs.pend ELSE -1>>},
+         ELSE [fs EXCEPT !.open = @ \cup {<<t.n, fs.cur, IF fs.pend # -1 THEN Dbl(fs.pend) ELSE -1>>},
                          !.pend = -1, !.last = "R", !.lastpct = (t.v = "%")]
     [] t.k = "(" -> [fs EXCEPT !.stack = Append(@, fs.prev), !.last = "(", !.lastpct = FALSE, !.rafter = FALSE]
     [] t.k = ")" -> [fs EXCEPT !.prev = fs.stack[Len(fs.stack)], !.stack = SubSeq(@, 1, Len(@) - 1),
@@ -128,6 +132,7 @@ WellFormedF(fs, ts, i, coarse) ==
                     /\ CASE SymRole(ts, i) = "lead" -> fs.last = "D" /\ NextIn(ts, i, {"A", "D"})
                           [] SymRole(ts, i) = "cap"  -> fs.last \in {"A", "R", ")", "D"} /\ Len(fs.atoms) > 0
                           [] OTHER -> /\ Len(fs.atoms) > 0
+                                      /\ (coarse => t.v # ":")      \* the graph reader has no ':' bond
                                       /\ IF coarse THEN fs.last \in {"A", "R", ")", "D"} /\ NextIn(ts, i, {"A", "R", "(", "D"})
                                                     ELSE fs.last \in {"A", "R", ")", "D", "("} /\ NextIn(ts, i, {"A", "R", "D"})
     [] t.k = "R" -> /\ t.n \in 0..99 /\ t.v \in {"d", "%"} /\ (t.v = "d" => t.n < 10)
@@ -193,7 +198,7 @@ ChiralOf(ts) ==
 (* ---------------------------------------------------------------------- *)
 (* C13: what strip_bonding_descriptors must report                         *)
 (* ---------------------------------------------------------------------- *)
-DescString(d) == d[1] \o d[2] \o ToString(d[3])
+DescString(d) == d[1] \o d[2] \o OrdText(d[3])
 
 IsBracket(t) == t.hc # -2      \* bare atoms are logged with hc = -2
 Dialect(t, coarse) == AtomDialect
